@@ -30,10 +30,13 @@ def report (p : Prog) : IO (Nat × Bool) := do
   let (s, t, g) := machine p topBound St.init
   let (rt, re) := evalW harnessWorld p topBound
   IO.println s!"O trace={showTrace t} end={endOf g} depth={if g = .normal then toString s.depth else "-"}"
-  -- reference outcome + whether the program meets the hypotheses of C07_current_source (then O and R must agree)
-  -- (C07_current_source_any_objects: inDomain, nesting fits, no filter walk of the reference run meets a clash)
-  let hyp := inDomain p && decide (nest p ≤ CelloGen.Exn.maxDepth) && noClash harnessWorld p topBound
-  IO.println s!"R trace={showTrace rt} exc={match re with | none => "none" | some e => if e = 0 then "NULL" else toString (e - 1)} nest={nest p} dom={inDomain p} nodup={nodupFilters p} noclash={noClash harnessWorld p topBound} types={allTypes harnessWorld p} hyp={hyp}"
+  -- reference outcome + whether the program meets the hypotheses of C07_within_nesting_bound_any_objects (then O and R
+  -- must agree): inDomain, nesting within the property's FIXED bound `nestBound` = 2048 — not the source's
+  -- EXCEPTION_MAX_DEPTH, which only the machine above follows: on a tree whose jump-buffer stack was shrunk the machine
+  -- aborts where the reference goes on, and the comparison of the two lines shows it —, no filter walk of the reference
+  -- run meets a clash
+  let hyp := inDomain p && decide (nest p ≤ nestBound) && noClash harnessWorld p topBound
+  IO.println s!"R trace={showTrace rt} exc={match re with | none => "none" | some e => if e = 0 then "NULL" else toString (e - 1)} nest={nest p} bound={nestBound} cap={CelloGen.Exn.maxDepth} dom={inDomain p} nodup={nodupFilters p} noclash={noClash harnessWorld p topBound} types={allTypes harnessWorld p} hyp={hyp}"
   return ((t.filter (fun e => match e with | .handler _ => true | _ => false)).length, g = .fatal)
 
 def main (args : List String) : IO Unit := do
